@@ -868,9 +868,31 @@ fn mutated_formula() -> impl Strategy<Value = String> {
     })
 }
 
+/// Token sequences with runs of blanks between (and inside) tokens: the helpers that cut a formula
+/// into token spans (completion, F4 cycling) index into the text by character offsets.
+fn spaced_tokens() -> impl Strategy<Value = String> {
+    let token = prop_oneof![
+        6 => prop::sample::select(vec![
+            "A1", "$B$2", "C$3", "S!A1", "S!$A$1", "Sheet1!B2", "Sheet1!B2:C3", "'My Sheet'!A1", "'It''s'!A1:B2", "S!A:B", "5:7",
+            "$5:$7", "A:A", "AB12", "XFD1048576", "S!AB12", "Ab!c1", "T[a]", "T[[a]:[b]]", "S!", "!A1", "S!!A1", "S!A1!B2",
+        ])
+        .prop_map(|s| s.to_string()),
+        3 => prop::sample::select(vec!["+", "-", "*", ",", ";", "(", ")", ":", "&", "=", "#", "@", "%", "{", "}"]).prop_map(|s| s.to_string()),
+        2 => prop::sample::select(vec!["SUM(", "IF(", "1", "2.5", "\"a b\"", "TRUE", "x", "é!A1"]).prop_map(|s| s.to_string()),
+    ];
+    let blanks = prop_oneof![
+        4 => Just(String::new()),
+        3 => Just(" ".to_string()),
+        2 => (2..7usize).prop_map(|n| " ".repeat(n)),
+        1 => prop::sample::select(vec!["\t", "\n", " \n ", "\u{a0}", "  \t"]).prop_map(|s| s.to_string()),
+    ];
+    prop::collection::vec((blanks, token), 1..6).prop_map(|v| v.into_iter().map(|(b, t)| format!("{b}{t}")).collect::<String>())
+}
+
 /// Formula bodies (no leading '=').
 fn formula_body() -> BoxedStrategy<String> {
     prop_oneof![
+        3 => spaced_tokens(),
         2 => arbitrary_unicode(24),
         4 => formula_alphabet(),
         4 => expr(","),
